@@ -119,6 +119,16 @@ def rename_history(rng, x):
                 del x["EDIF.identifier"]
         except ValueError:
             pass
+    if x.name and not isinstance(x, sdn.Library) and rng.random() < 0.06:
+        # the name is taken away by assigning None (and perhaps another one given later): nothing answers to the former name
+        old = x.name
+        try:
+            x.name = None
+            OLD_VALUES.append(old)
+            if rng.random() < 0.5:
+                x.name = "renamed_%d" % rng.randrange(100000)
+        except ValueError:
+            pass
     if x.name and rng.random() < 0.2:
         final = x.name
         old = "was_%s_%d" % (final[:6], rng.randrange(1000))
@@ -140,6 +150,25 @@ def decorate(rng, n, policy):
             for x in list(d.ports) + list(d.cables) + list(d.children):
                 rename_history(rng, x)
     decorate.refused = refused_adds(rng, n)
+    # a past of BULK removals: the removed children are gone, also for exact-name queries
+    for l in n.libraries:
+        for d in l.definitions:
+            if len(d.children) >= 2 and rng.random() < 0.25:
+                gone = rng.sample(list(d.children), rng.randint(1, 2))
+                for c in gone:
+                    for op in list(c.pins):
+                        if op.wire is not None:
+                            op.wire.disconnect_pin(op)
+                d.remove_children_from(gone if rng.random() < 0.5 else set(gone))
+                OLD_VALUES.extend(c.name for c in gone if c.name)
+            if len(d.cables) >= 2 and rng.random() < 0.15:
+                gone = rng.sample(list(d.cables), 1)
+                for c in gone:
+                    for w in c.wires:
+                        for p_ in list(w.pins):
+                            w.disconnect_pin(p_)
+                d.remove_cables_from(gone)
+                OLD_VALUES.extend(c.name for c in gone if c.name)
 
 
 def refused_adds(rng, n):
